@@ -80,13 +80,14 @@ def run_array(case, failures, hsh):
     count_list = [list(c) for c in itertools.product(COUNTS, repeat=n)]
     variants = [('C', float, float)]
     if len(shape) == 2 and min(shape) > 1:
-        variants += [('F', float, float), ('T', float, int)]       # column-major copy; transposed view of the transposed copy
+        variants += [('F', float, float), ('T', float, int), ('Fr', float, float), ('Fc', float, int)]
+        # F: both column-major; T: both transposed views; Fr: only the rates column-major; Fc: only the counts column-major
     else:
         variants += [('C', float, int)]                              # integer count array
     for rates in case['rates']:
       for layout, rdt, cdt in variants:
         f = numpy.array(rates, dtype=rdt).reshape(shape)
-        if layout == 'F':
+        if layout in ('F', 'Fr'):
             f = numpy.asfortranarray(f)
         elif layout == 'T':
             f = numpy.ascontiguousarray(f.T).T
@@ -95,7 +96,7 @@ def run_array(case, failures, hsh):
                 continue            # layout / dtype variants on a fixed quarter of the rate assignments (and always on the first)
         for counts in count_list:
             c = numpy.array(counts, dtype=cdt).reshape(shape)
-            if layout == 'F':
+            if layout in ('F', 'Fc'):
                 c = numpy.asfortranarray(c)
             elif layout == 'T':
                 c = numpy.ascontiguousarray(c.T).T
@@ -244,6 +245,10 @@ def run_case(case):
         c = numpy.array(counts, dtype=(int if case.get('cdt') == 'int' else float)).reshape(shape)
         if case.get('layout') == 'F':
             f, c = numpy.asfortranarray(f), numpy.asfortranarray(c)
+        elif case.get('layout') == 'Fr':
+            f = numpy.asfortranarray(f)
+        elif case.get('layout') == 'Fc':
+            c = numpy.asfortranarray(c)
         elif case.get('layout') == 'T':
             f, c = numpy.ascontiguousarray(f.T).T, numpy.ascontiguousarray(c.T).T
         cls = cls_of(rates, counts) + ('' if (case.get('layout', 'C') == 'C' and case.get('cdt', 'float') == 'float') else f',layout={case.get("layout")},counts={case.get("cdt")}')
